@@ -25,12 +25,12 @@ def check(ctx, src):
     inf = comp.rm.toplevel_assign("Inf")
     ctx.check(inf is not None and norm(inf) == "float('inf')", "QQ-ENTRY", f"{R}|Inf", "Inf is no longer float('inf')", R, 0, detail="float('inf')")
     g = next((s for s in f.body if isinstance(s, ast.If) and "isinstance(form[0], Symbol)" in norm(s.test)), None)
-    ctx.require(g is not None, "head recognition not found")
+    ctx.need(g is not None, "head recognition not found")
     ctx.check(norm(g.test) == "isinstance(form, Expression) and form and isinstance(form[0], Symbol)", "QQ-HEAD", f"{R}|render_quoted_form|head guard", f"head guard is `{norm(g.test)}`", R, g.lineno, detail="non-empty Expression with Symbol head")
     ctx.check(norm(g.body[0]) == "op = mangle(form[0]).replace('_', '-')", "QQ-HEAD", f"{R}|render_quoted_form|head normalisation", f"the head is computed as `{norm(g.body[0])}`: names that mangle equally (unquote_splice) must be treated alike",
               R, g.lineno, witness="`[1 (unquote_splice xs)] leaves the form literal", detail="mangle(...).replace('_', '-')")
     inner = g.body[1] if len(g.body) > 1 and isinstance(g.body[1], ast.If) else None
-    ctx.require(inner is not None, "level arm not found")
+    ctx.need(inner is not None, "level arm not found")
     ctx.check(norm(inner.test) == "op in ('unquote', 'unquote-splice', 'quasiquote')", "QQ-LEVEL", f"{R}|render_quoted_form|special heads", f"special heads are `{norm(inner.test)}`", R, inner.lineno, detail="unquote, unquote-splice, quasiquote")
     sub = inner.body[0] if isinstance(inner.body[0], ast.If) else None
     ok = sub is not None and norm(sub.test) == "level == 0 and op != 'quasiquote'" and norm(sub.body[-1]) == "return (form[1], op == 'unquote-splice')"
